@@ -461,6 +461,74 @@ def r06d(run, A: FuncInfo, B: FuncInfo):
                                 "and only by this strategy", node=c)
 
 
+def r06f(run, A: FuncInfo, B: FuncInfo):
+    """a key that matched a declared field is consumed however the field treats it: in the strategy that runs an
+    extra-key pass over the input afterwards, every path from `the field got a value` to the next field marks the
+    field's aliases as used"""
+    for f in (A, B):
+        fa = analysis(f)
+        filt = set()
+        for n, c in fa.all_calls():
+            if call_attr(c) != "parse_addition":
+                continue
+            for a, p in fa.facts.atoms_at(n):
+                if isinstance(a, ast.Compare) and isinstance(a.ops[0], ast.In) and not p and isinstance(a.comparators[0], ast.Name):
+                    filt.add(a.comparators[0].id)
+        if not filt:
+            run.ob("R06f", f, "no extra-key pass filtered by a consumed-key set (keys are routed per key)", True, nontrivial=False)
+            continue
+        for setname in sorted(filt):
+            marks = [n for n in fa.cfg.nodes if n.kind == "stmt" and any(
+                isinstance(c.func, ast.Attribute) and unparse(c.func.value) == setname and c.func.attr in ("update", "add")
+                for c in fa.calls_at(n))]
+            # the branch "this field got a value": unprovided(<v>) is False inside the per-field loop
+            got = [b for b in fa.cfg.nodes if b.kind == "branch" and not b.is_for and b.polarity is False
+                   and isinstance(b.test, ast.Call) and call_attr(b.test) == "unprovided"
+                   and [m for m in sorted(fa.cfg.dominators()[b], key=lambda x: x.id)
+                        if m.kind == "branch" and m.is_for and m.polarity][-1:] and "self.fields" in unparse(
+                       [m for m in sorted(fa.cfg.dominators()[b], key=lambda x: x.id)
+                        if m.kind == "branch" and m.is_for and m.polarity][-1].stmt.iter)]
+            got = [b for b in got if b.test.args and value_state(fa, b.pred[0][0], b.test.args[0]) == {"RAW"}]
+            run.floor("R06f", f"`field got a value` branches in {f.name}", len(got), 1)
+            for b in got:
+                heads = [m.pred[0][0] for m in fa.cfg.dominators()[b] if m.kind == "branch" and m.is_for and m.polarity
+                         and "self.fields" in unparse(m.stmt.iter)]
+                reach = fa.cfg.reach_from_succ(b, kinds=(N,), avoid=marks)
+                leak = [h for h in heads if h in reach]
+                run.check("R06f", f, f"every field that got a value marks its aliases in `{setname}` before the next field",
+                          not leak and bool(marks), construct=f"consumed keys not marked on every path ({setname})",
+                          message=f"{f.qualname}: a path from `not unprovided(value)` to the next field avoids "
+                                  f"`{setname}.update(...)` (e.g. through the no-input branch)",
+                          necessity="the key given for a no-input (or otherwise skipped) field is later treated as an "
+                                    "unknown key: kept as addition (overriding the default) or rejected with ExceedError, "
+                                    "while the other strategy consumes it", node=b.stmt)
+
+
+def r06g(run, A: FuncInfo, B: FuncInfo):
+    """the per-field pass (absence / defaults) ranges over all declared fields"""
+    for f in (A, B):
+        fa = analysis(f)
+        n_loops = 0
+        for n, c in fa.all_calls():
+            is_abs = is_handle_error_call(c) and c.args and exc_class_of_ctor(c.args[0]) == "AbsenceError"
+            if not is_abs:
+                continue
+            loops = [m for m in fa.cfg.dominators()[n] if m.kind == "branch" and m.is_for and m.polarity]
+            if not loops:
+                continue
+            n_loops += 1
+            it = loops[-1].stmt.iter
+            txt = unparse(it)
+            ok = txt in ("self.fields.items()", "self.fields.values()", "self.fields")
+            run.check("R06g", f, "the absence / default pass iterates every declared field", ok,
+                      construct="per-field pass over a partial domain",
+                      message=f"{f.qualname}: the loop that reports AbsenceError and applies defaults iterates `{txt}`, "
+                              f"not self.fields",
+                      necessity="fields left out of the iteration are neither reported as absent nor given their "
+                                "default, and only in this strategy", node=it)
+        run.floor("R06g", f"absence passes in {f.name}", n_loops, 1)
+
+
 NORMALISERS = ("lower", "casefold", "upper")
 
 
@@ -487,7 +555,7 @@ def r06e(run):
 
 
 def check(run):
-    run.rules_run += ["R06a", "R06b", "R06c", "R06d", "R06e"]
+    run.rules_run += ["R06a", "R06b", "R06c", "R06d", "R06e", "R06f", "R06g"]
     run.explain("C06: the two lookup strategies are discovered as the callees of the strategy conditional in "
                 "parse_data. (R06a) for each action (raise AbsenceError / AliasConflictError / DependenciesAbsenceError, "
                 "parse a field, store parsed, store default for a missing / a no-input field, store an extra key, collect "
@@ -501,4 +569,6 @@ def check(run):
     r06b(run, [A, B])
     r06c(run, pd, A, B)
     r06d(run, A, B)
+    r06f(run, A, B)
+    r06g(run, A, B)
     r06e(run)
